@@ -140,6 +140,7 @@ func Plans() map[string]*Plan {
 		p.W[OpCompactAll] = 3
 		p.W[OpAddMulti] = 4
 		p.BadTxn = 0.08 // stale update indices, also inside multi-table Additions
+		p.BigTableP = 0.03 // compactions whose inputs exceed 64 KiB (size thresholds in the write path)
 		ps["C05"] = &Plan{Prop: "C05", Level: "exploration",
 			Parts: []Part{
 				concPart("C05", "S-CONC", 24000, 2400000, p, RunOpts{}),
@@ -227,6 +228,7 @@ func Plans() map[string]*Plan {
 		}
 		p.ForceLocalP = true
 		p.MinOps, p.MaxOps = 3, 7
+		p.BigTableP = 0.03
 		ps["C10"] = &Plan{Prop: "C10", Level: "exploration",
 			Parts: []Part{
 				concPart("C10", "S-CONC/readers-vs-churn", 40000, 4000000, p, RunOpts{}),
